@@ -163,9 +163,18 @@ Definition is_word_char (c : N) : bool :=
 Fixpoint skip_ws (s : str) : str :=
   match s with c :: r => if is_ws c then skip_ws r else s | [] => [] end.
 
+(** WORD: [[a-zA-Z_](?:[a-zA-Z0-9_]|-(?![}%]\}))*] (ASCII part; since 8ef966d a
+    hyphen directly before a closing delimiter is not part of the word). *)
+Definition closes_markup (r : str) : bool :=
+  match r with
+  | a :: b :: _ => ((a =? RBRACE) || (a =? 37)) && (b =? RBRACE)
+  | _ => false
+  end.
+
 Fixpoint take_word (s : str) : str * str :=
   match s with
-  | c :: r => if is_word_char c then let '(w, rest) := take_word r in (c :: w, rest)
+  | c :: r => if is_word_char c && negb ((c =? 45) && closes_markup r)
+              then let '(w, rest) := take_word r in (c :: w, rest)
               else ([], s)
   | [] => ([], [])
   end.
